@@ -130,6 +130,13 @@ fn pipe_case(rt: &tokio::runtime::Runtime, dir: &Path, case: &Value, n: usize) -
 			}
 			if !fp.is_empty() {
 				let idx: usize = key.trim_start_matches("src").parse().unwrap_or(1);
+				// (an SQLite pool timeout of an overloaded machine is retried: util::retry_env)
+				for _ in 0..4 {
+					match get_reader(&fp[idx - 1]).await {
+						Err(e) if format!("{e:#}").contains("timed out waiting for connection") => tokio::time::sleep(std::time::Duration::from_secs(3)).await,
+						r => return r,
+					}
+				}
 				return get_reader(&fp[idx - 1]).await;
 			}
 			match reg.lock().unwrap().get(&key) {
